@@ -58,7 +58,11 @@ func (p *watPrinter) printImport_global(importSpec *ast.ImportSpec) {
 }
 
 func (p *watPrinter) printImport_func(importSpec *ast.ImportSpec) {
-	fmt.Fprintf(p.w, " (func %s", watPrinter_identOrIndex(importSpec.FuncName))
+	if importSpec.FuncName != "" {
+		fmt.Fprintf(p.w, " (func %s", watPrinter_identOrIndex(importSpec.FuncName))
+	} else {
+		fmt.Fprint(p.w, " (func") // anonymous import
+	}
 
 	fnType := importSpec.FuncType
 	if len(fnType.Params) > 0 {
